@@ -3,6 +3,7 @@ package c19
 import (
 	"fmt"
 	"strings"
+	"sync"
 	"time"
 
 	imodels "github.com/influxdata/influxdb/models"
@@ -191,6 +192,10 @@ func runTaskOnce(ts taskSession, r *rt.Run, restoreFrom *kapacitor.TaskSnapshot)
 		if len(cols) != 1 {
 			return nil, nil, fmt.Errorf("%d batch collectors", len(cols))
 		}
+		// a query node only ends when its collector is closed: also on the early returns below (env.Close waits for it)
+		var closeOnce sync.Once
+		closeCols := func() { closeOnce.Do(func() { cols[0].Close() }) }
+		defer closeCols()
 		for k, b := range ts.batches {
 			if ts.snapAt[k] {
 				snapshot()
@@ -207,7 +212,7 @@ func runTaskOnce(ts taskSession, r *rt.Run, restoreFrom *kapacitor.TaskSnapshot)
 				return rec, nil, nil
 			}
 		}
-		cols[0].Close()
+		closeCols()
 	} else {
 		for k, p := range ts.points {
 			if ts.snapAt[k] {
